@@ -527,6 +527,15 @@ func (tb *TB) Arith(op token.Token, a, b *Term, signed bool) *Term {
 		case token.MUL:
 			return tb.mk("fp.mul", s, "RNE", a, b)
 		case token.QUO:
+			// x / (+-2^k) == x * (+-2^-k) exactly in IEEE arithmetic (same real value is rounded);
+			// 64-bit fp.div is out of the solvers' reach, multiplication by a constant is not.
+			if b.IsConst() && b.F != 0 && !math.IsInf(b.F, 0) && !math.IsNaN(b.F) {
+				fr, _ := math.Frexp(math.Abs(b.F))
+				inv := 1 / b.F
+				if fr == 0.5 && inv != 0 && !math.IsInf(inv, 0) && 1/inv == b.F && (s.W == 64 || float64(float32(inv)) == inv) {
+					return tb.Arith(token.MUL, a, tb.FPC(s.W, inv), signed)
+				}
+			}
 			return tb.mk("fp.div", s, "RNE", a, b)
 		}
 	case SInt:
@@ -1179,6 +1188,36 @@ func (tb *TB) FloatFromBits(a *Term) *Term {
 	return tb.mk("bits_to_fp", Sort{SFP, w}, "", a)
 }
 
+// HalfToFloat64 decodes an IEEE binary16 bit pattern (reference semantics supplied by the solver's FP theory).
+func (tb *TB) HalfToFloat64(a *Term) *Term {
+	if a.IsConst() {
+		return tb.FPC(64, halfBitsToFloat(uint16(a.U)))
+	}
+	return tb.mk("half_to_fp64", F64Sort, "", a)
+}
+
+func halfBitsToFloat(h uint16) float64 {
+	sign := uint32(h>>15) & 1
+	exp := int((h >> 10) & 0x1f)
+	man := uint32(h & 0x3ff)
+	var f float64
+	switch {
+	case exp == 0:
+		f = math.Ldexp(float64(man), -24)
+	case exp == 31:
+		if man != 0 {
+			return math.NaN()
+		}
+		f = math.Inf(1)
+	default:
+		f = math.Ldexp(float64(man|0x400), exp-25)
+	}
+	if sign == 1 {
+		f = -f
+	}
+	return f
+}
+
 // ---------- printing ----------
 
 func ratString(f float64) string {
@@ -1300,6 +1339,8 @@ func (t *Term) body() string {
 		return "((_ fp.to_sbv " + t.Name + ") RTZ " + a(0) + ")"
 	case "fp_to_ubv":
 		return "((_ fp.to_ubv " + t.Name + ") RTZ " + a(0) + ")"
+	case "half_to_fp64":
+		return "((_ to_fp 11 53) RNE ((_ to_fp 5 11) " + a(0) + "))"
 	case "bits_to_fp":
 		if t.S.W == 32 {
 			return "((_ to_fp 8 24) " + a(0) + ")"
